@@ -1040,8 +1040,8 @@ package ice
 //@ // leave the old number in place over a header it has already started to overwrite: either
 //@ // the cached header is untouched, or the cache is marked empty (MaxInt64 is no chunk number).
 //@ func (*docValueReader).loadDvChunk
-//@   ensures[C13,C19] @failed_load_leaves_cache_coherent result0 != nil ==> di.curChunkNum == 9223372036854775807 || (di.curChunkNum == old(di.curChunkNum) && di.curChunkHeader == old(di.curChunkHeader) && forall(j, 0, len(di.curChunkHeader), di.curChunkHeader[j].DocNum == old(di.curChunkHeader[j].DocNum) && di.curChunkHeader[j].DocDvOffset == old(di.curChunkHeader[j].DocDvOffset)))
-//@   ensures[C13,C19] @loaded_chunk_is_current result0 == nil ==> di.curChunkNum == chunkNumber
+//@   ensures[C07,C13,C19] @failed_load_leaves_cache_coherent result0 != nil ==> di.curChunkNum == 9223372036854775807 || (di.curChunkNum == old(di.curChunkNum) && di.curChunkHeader == old(di.curChunkHeader) && forall(j, 0, len(di.curChunkHeader), di.curChunkHeader[j].DocNum == old(di.curChunkHeader[j].DocNum) && di.curChunkHeader[j].DocDvOffset == old(di.curChunkHeader[j].DocDvOffset)))
+//@   ensures[C07,C13,C19] @loaded_chunk_is_current result0 == nil ==> di.curChunkNum == chunkNumber
 //@
 //@ // ---------------------------------------------------------------------------
 //@ // C07: doc values
@@ -1120,3 +1120,36 @@ package ice
 //@   ensures[C02] result0 != nil && fresh(result0)
 //@ func persistMergedRestField
 //@   requires[C02] tfEncoder != nil && locEncoder != nil && tfEncoder != locEncoder
+//@
+//@ // ---- C16: the per-field document tracking bitmap starts empty for every field of a merge ----
+//@ func persistMergedRestField
+//@   at call:newEnumerator#0 lemma[C16] bset(fieldDocTracking) == emptyset() && bset(newRoaring) == emptyset()
+//@
+//@ // ---- C02/C07: the per-field tables of the segments in focus are parallel ----
+//@ // setupActiveForField selects the segments that have the field and, in the same order, their
+//@ // mapping tables; whoever remaps a document of segmentsInFocus[j] must use newDocNums[j]
+//@ func setupActiveForField
+//@   requires[C02,C07] len(newDocNumsIn) == len(segments) && forall(i, 0, len(segments), segments[i] != nil && len(newDocNumsIn[i]) == segments[i].footer.numDocs)
+//@   loop 0 invariant[C02,C07] len(newDocNums) == len(segmentsInFocus) && forall(j, 0, len(segmentsInFocus), segmentsInFocus[j] != nil && len(newDocNums[j]) == segmentsInFocus[j].footer.numDocs)
+//@   ensures[C02,C07] @tables_parallel err == nil ==> len(newDocNums) == len(segmentsInFocus) && forall(j, 0, len(segmentsInFocus), segmentsInFocus[j] != nil && len(newDocNums[j]) == segmentsInFocus[j].footer.numDocs)
+//@ func buildMergedDocVals
+//@   requires[C02,C07] @tables_parallel len(newDocNums) == len(segmentsInFocus) && forall(j, 0, len(segmentsInFocus), segmentsInFocus[j] != nil && len(newDocNums[j]) == segmentsInFocus[j].footer.numDocs)
+//@ func persistMergedRestField
+//@   requires[C02,C07] len(newDocNumsIn) == len(segments) && forall(i, 0, len(segments), segments[i] != nil && len(newDocNumsIn[i]) == segments[i].footer.numDocs)
+//@   loop 0 invariant[C02,C07] len(newDocNums) == len(segmentsInFocus) && forall(j, 0, len(segmentsInFocus), segmentsInFocus[j] != nil && len(newDocNums[j]) == segmentsInFocus[j].footer.numDocs)
+//@ func persistMergedRest
+//@   requires[C02,C07] len(newDocNumsIn) == len(segments) && forall(i, 0, len(segments), segments[i] != nil && len(newDocNumsIn[i]) == segments[i].footer.numDocs)
+//@   loop 0 invariant[C02,C07] len(newDocNumsIn) == len(segments) && forall(i, 0, len(segments), segments[i] != nil && len(newDocNumsIn[i]) == segments[i].footer.numDocs)
+//@
+//@ // ---- C04, load side: the fields-section parser stays inside the image ----
+//@ // valid image (restating what persistFields writes): the fields index is the last section and
+//@ // holds one 8-byte address per field; every address points at a record that lies before the
+//@ // index and consists of four uvarints and the name
+//@ func (*Segment).loadFields
+//@   safety[C04] read
+//@   assume s.footer.fieldsIndexOffset <= dlen(s.data) && (dlen(s.data) - s.footer.fieldsIndexOffset) % 8 == 0
+//@   at call:(encoding/binary.bigEndian).Uint64#0 assume result0 <= s.footer.fieldsIndexOffset
+//@   at call:encoding/binary.Uvarint#0 assume 1 <= result1 && addr + result1 <= s.footer.fieldsIndexOffset
+//@   at call:encoding/binary.Uvarint#1 assume 1 <= result1 && addr + n + result1 + result0 <= s.footer.fieldsIndexOffset
+//@   at call:encoding/binary.Uvarint#2 assume 1 <= result1 && addr + n + result1 <= s.footer.fieldsIndexOffset
+//@   loop 0 invariant[C04] dlen(s.data) == old(dlen(s.data)) && s.data == old(s.data) && s.footer == old(s.footer) && s.footer.fieldsIndexOffset == old(s.footer.fieldsIndexOffset) && fieldsIndexEnd == dlen(s.data)
